@@ -148,6 +148,30 @@ Theorem C25_no_crash : forall F fs gos near,
 Proof. exact no_crash. Qed.
 Print Assumptions C25_no_crash.
 
+(* Building the boxwork with bx: whatever mix of explicit overs, over=None and
+   default overs (= the current level, legal exactly where the level already
+   is the intended over) declares the boxes, the built (box, over) list — and
+   with it every unders list, which is its filter in declaration order — is
+   the declared one. *)
+Theorem C25_bx_builds_declared : forall ds ds',
+  Forall (fun d => snd d <> MDefault) ds -> relaxes None ds ds' ->
+  build ds' = map (fun d => (fst d, intended (snd d))) ds.
+Proof. exact bx_builds_declared. Qed.
+Print Assumptions C25_bx_builds_declared.
+
+(* A box declared with over=None resets the current level: a default-over box
+   right after it is a top-level box, whatever was declared before. *)
+Theorem C25_bx_none_resets_level : forall l ds a b,
+  exists pre, build_from l (ds ++ [(a, MNone); (b, MDefault)]) = pre ++ [(a, None); (b, None)].
+Proof. exact none_resets_level. Qed.
+Print Assumptions C25_bx_none_resets_level.
+
+Example C25_bx_example :
+  build [(0, MNone); (1, MExplicit 0); (2, MDefault); (3, MNone); (4, MDefault)] =
+    [(0, None); (1, Some 0); (2, Some 0); (3, None); (4, None)] /\
+  built_unders (build [(0, MNone); (1, MExplicit 0); (2, MDefault); (3, MNone); (4, MDefault)]) 0 = [1; 2].
+Proof. vm_compute. split; reflexivity. Qed.
+
 (* Non-vacuity.  Forest 0 > (1 > (2, 3), 4), two acts in every list.  From
    active box 3 the goact of box 1 fires to 4 (rejected: preact 0 of 4 returns None, which is falsy)
    and then to 2 (taken): boxes 0 and 1 are retained. *)
